@@ -21,6 +21,17 @@ def run_one(pid, tier, only=None):
     modname, level = PROPS[pid]
     ctx = Ctx(pid, tier, level)
     ctx.only = only
+    # a check must never hang: the analysis of one tree is bounded in wall-clock time
+    import signal
+
+    def _expired(signum, frame):
+        raise AnalysisError("analysis time budget (%d s) exhausted" % BUDGET_S)
+    BUDGET_S = int(os.environ.get("VERIF_BUDGET_S", "600"))
+    try:
+        signal.signal(signal.SIGALRM, _expired)
+        signal.alarm(BUDGET_S)
+    except (ValueError, AttributeError):
+        pass
     try:
         mod = importlib.import_module("sa.rules." + modname)
         world = World()
@@ -30,6 +41,10 @@ def run_one(pid, tier, only=None):
         if tier == "thorough" and hasattr(mod, "thorough"):
             mod.thorough(ctx, world)
         rc = finish(ctx, seed=int(os.environ.get("VERIF_SEED", "0") or 0))
+        try:
+            signal.alarm(0)
+        except (ValueError, AttributeError):
+            pass
         if rc == 0 and tier == "thorough" and only is None:
             from . import selftest
             rc = selftest.sensitivity(pid, ctx)
